@@ -168,8 +168,8 @@ Definition default_bexp : bexp := BCmp CGt NA (NMul (NConst (1#2)) NT).
 Lemma round53_small n : n < 9007199254740992 -> round53 n = n.
 Proof. intro H. unfold round53. destruct (n <? 9007199254740992) eqn:E; [reflexivity | lia]. Qed.
 
-Lemma default_bexp_spec a t :
-  a < 9007199254740992 -> t < 9007199254740992 -> qsem default_bexp a 0 t = simple_majority a 0 t.
+Lemma default_bexp_spec a r t :
+  a < 9007199254740992 -> t < 9007199254740992 -> qsem default_bexp a r t = simple_majority a r t.
 Proof.
   intros Ha Ht. unfold qsem, default_bexp, simple_majority, f64N. cbn [beval neval qcmp].
   rewrite !round53_small by (assumption || lia).
